@@ -77,3 +77,25 @@ Definition metric_choose (metric : N -> N) (options : list N) : nat :=
 
 Definition metric_strategy (sh : list N -> list N) (metric : N -> N) : strategy :=
   {| shuf := sh; choose := fun _ opts => metric_choose metric opts |}.
+
+(* ---------------------------------------------------------------- metric_cache.go
+   MetricCache.GetMetricOf(id): if the id is stored return the stored value, otherwise compute
+   metricFn(id), store it (the wlru may evict other entries: WHICH ones is an oracle) and return it. *)
+Definition mcache := list (N * N).
+Fixpoint mc_lookup (id : N) (c : mcache) : option N :=
+  match c with
+  | [] => None
+  | (k, m) :: r => if k =? id then Some m else mc_lookup id r
+  end.
+Definition memo_step (f : N -> N) (evict : mcache -> mcache) (c : mcache) (id : N) : N * mcache :=
+  match mc_lookup id c with
+  | Some m => (m, c)
+  | None => let m := f id in (m, (id, m) :: evict c)
+  end.
+(* a sequence of look-ups through one cache *)
+Fixpoint memo_run (f : N -> N) (evict : mcache -> mcache) (c : mcache) (ids : list N) : list N * mcache :=
+  match ids with
+  | [] => ([], c)
+  | id :: r => let '(m, c') := memo_step f evict c id in
+               let '(ms, c'') := memo_run f evict c' r in (m :: ms, c'')
+  end.
